@@ -20,7 +20,7 @@ from builders.c13b import ET
 from props import c13_rtf
 from props import c13_slide
 
-GEN = ["Tables", "HtmlSkip", "TablesRtf"] + c13_slide.GEN
+GEN = ["Tables", "HtmlSkip", "TablesRtf", "C02Sheets", "PyOdsSheet", "PyXlsxSheet"] + c13_slide.GEN
 RULE = ("abstract documents (paragraphs + tables 1..4 x 1..4, ragged rows, empty / multi-paragraph cells, adjacent tables, "
         "tables inside cells to depth 2, header rows) written to DOCX / PPTX / ODT / ODP / HTML / EPUB / RTF and read by the real "
         "read_*; RTF tables additionally with every separator the format allows between the table tokens (row layouts, every slot "
